@@ -143,6 +143,19 @@ def big_items(rng):
     return out
 
 
+def utf8_items(rng, budget):
+    """the UTF-8 grid (gen.utf8_grid) as single records; all of it when the budget allows, else the 'most the AVP holds,
+    defect at the very end' family first and a sample of the rest"""
+    g = utf8_grid(rng)
+    limit = max(60, budget // 8)
+    if len(g) > limit:
+        first = [x for x in g if '_max_' in x[0] and x[0].endswith('_last')]
+        rest = [x for x in g if x not in first]
+        rng.shuffle(first); rng.shuffle(rest)
+        g = (first + rest)[:limit]
+    return [(tag, avp_rec(t, p, m=rng.choice([1, 1, 0]))) for (tag, t, p, ok) in g]
+
+
 def dec_corpus(rng, budget, thorough=False):
     """-> list of (tag, octets): mostly-valid structured inputs plus a malformed stream"""
     out = list(D_INPUTS) + list(EXTRA_DEC)
@@ -157,6 +170,7 @@ def dec_corpus(rng, budget, thorough=False):
             out.append(('prefix_d', p))
     out += noncanonical(rng, budget // 12)
     out += big_items(rng)
+    out += [(t, ctrl_bytes(mt_record(rng) + r)) for (t, r) in utf8_items(rng, budget)]
     # the same message twice with a neighbour that differs only inside one long value (adjacent cases run on one thread)
     for _ in range(max(4, budget // 400)):
         t = rng.choice([7, 8, 8, 11, 21, 22, 23, 30, 33, 37])
@@ -209,6 +223,7 @@ def near_duplicates(rng, b):
 def avps_corpus(rng, budget, thorough=False):
     out = [('D2_body', bytes.fromhex('000300000000')), ('empty', b'')] + list(EXTRA_AVPS)
     out += guard_grid(rng, thorough)
+    out += utf8_items(rng, budget)
     while len(out) < budget:
         c = rng.random()
         recs = rand_body(rng, rng.randrange(0, 6), good_only=rng.random() < 0.5)
